@@ -15,12 +15,53 @@ def instances(tier, seed):
         out.append(Instance(crate="hk_hal", family="galois.inverse", name=f"c03_galois_inv_logn{logn}", call=f"crate::c03::galois_inv::<{logn}>()", unwind=70,
                             params={"log_n": logn}, symbolic=["every odd Galois element in (-2N, 2N)"], functions=[f"{M}::GaloisElement::galois_element_inv", f"{M}::mod_exp_u64"], timeout=1800,
                             core=logn in (1, 3, 6)))
+    import c12
+    fused = c12.core_frame_instances(ops=(6, 7, 8))
+    for i in fused:
+        i.core = i.core or ("automorphism_sub_negate_b12_12_kin24_kk36_ko24_ds1_dn2_r11_p3_sym2" in i.name)
+    return out + ks_instances() + fused
+
+
+KS_STUBS = [("poulpy_hal::source::Source::next_u64n", "crate::c03_ks::next_u64n_lcg"),
+            ("poulpy_cpu_ref::reference::znx::znx_add_normal_f64_ref", "crate::stubs::add_normal_stub"),
+            ("f64::exp2", "crate::stubs::exp2_stub"), ("f64::log2", "crate::stubs::log2_stub"), ("std::fmt::format", "crate::stubs::fmt_stub"),
+            ("poulpy_cpu_ref::hal_defaults::scratch::take_slice_aligned", "crate::stubs::take_slice_aligned_stub")]
+PROBE8 = ["hk_core/src/probe_full.rs: Module<Probe> at N=8 (repository hal_impl_*! macros, fft64/znx.rs bindings, impl_core_default_methods!) over substituted leaf kernels: identity transform + exact Gaussian-integer arithmetic, i.e. the ring R' = Z[i]^4",
+          "poulpy-cpu-ref/src/hal_defaults/*.rs", "poulpy-cpu-ref/src/reference/fft64/{vmp,vec_znx_dft,svp,vec_znx_big}.rs", "poulpy-cpu-ref/src/reference/vec_znx/*.rs"]
+
+
+def secret8(rank, variant):
+    pat = {0: (2, 1, 0, 1, 2, 2, 1, 0, 1, 1, 2, 0), 1: (0,) * 12, 2: (2,) * 12, 3: (1, 0, 0, 0, 0, 0, 0, 0, 0, 0, 0, 0)}[variant]
+    digs = [pat[(c * 8 + i) % 12] for c in range(rank) for i in range(8)]
+    return sum(d * 3**i for i, d in enumerate(digs)), [{0: 0, 1: 1, 2: -1}[d] for d in digs]
+
+
+def ks_instances():
+    out = []
+    # (b, k_in, k_ksk, k_out, dsize, dnum, rank_in, rank_out, in_place); dnum*dsize >= input limbs and k_out >= k_ksk: exact
+    shapes = [(4, 8, 12, 12, 1, 2, 1, 1, False), (4, 12, 12, 12, 1, 3, 1, 1, True), (4, 8, 12, 12, 1, 2, 2, 1, False), (4, 8, 12, 12, 1, 2, 1, 2, False),
+              (4, 8, 16, 16, 2, 1, 1, 1, False), (4, 12, 20, 20, 2, 2, 1, 1, False), (4, 8, 12, 12, 1, 3, 1, 1, False),
+              (12, 24, 36, 36, 1, 2, 1, 1, False)]
+    for b, kin, kksk, kout, dsize, dnum, ri, ro, inpl in shapes:
+        for vin, vout, nsym in [(a, c, ns) for (a, c) in ((0, 2), (3, 0), (1, 1)) for ns in (2, 999)]:
+            if nsym == 999 and not (vin == 0 and b == 4 and (kin, kksk, kout, dsize, dnum, ri, ro) == (8, 12, 12, 1, 2, 1, 1)):
+                continue
+            spi, seci = secret8(ri, vin)
+            spo, seco = secret8(ro, vout)
+            core = (b, kin, kksk, kout, dsize, dnum, ri, ro, inpl, vin) in ((4, 8, 12, 12, 1, 2, 1, 1, False, 0), (4, 12, 12, 12, 1, 3, 1, 1, True, 0), (12, 24, 36, 36, 1, 2, 1, 1, False, 0)) and nsym == 2
+            out.append(Instance(crate="hk_core", family="ks.glwe_keyswitch_assign" if inpl else "ks.glwe_keyswitch", name=f"c03_ks{'_assign' if inpl else ''}_b{b}_kin{kin}_kk{kksk}_ko{kout}_ds{dsize}_dn{dnum}_r{ri}{ro}_v{vin}{vout}_{'all' if nsym == 999 else f'sym{nsym}'}",
+                                call=f"crate::c03_ks::glwe_keyswitch_phase::<{b}, {kin}, {kksk}, {kout}, {dsize}, {dnum}, {bool_rs(inpl)}, 2048, 1024>({ri}, {ro}, {spi}, {spo}, {nsym})", unwind=8 * max((ri + 1) * -(-(kout if inpl else kin) // b), (ro + 1) * -(-kout // b)) + 10,
+                                params={"n": 8, "base2k": b, "k_in": kin, "k_ksk": kksk, "k_out": kout, "dsize": dsize, "dnum": dnum, "rank_in": ri, "rank_out": ro, "secret_in": seci, "secret_out": seco, "symbolic_input_words": "all" if nsym == 999 else nsym},
+                                symbolic=["input ciphertext words (see symbolic_input_words; the rest a fixed digit pattern)", "prior output content", "key-switch scratch (exactly glwe_keyswitch_tmp_bytes)"], stubs=KS_STUBS,
+                                functions=["poulpy-core/src/keyswitching/glwe.rs::glwe_keyswitch / glwe_keyswitch_assign (+ tmp_bytes)", "poulpy-core/src/encryption/glwe_switching_key.rs::glwe_switching_key_encrypt_sk", "poulpy-core/src/encryption/gglwe.rs",
+                                           "poulpy-core/src/layouts/prepared/{glwe_switching_key,gglwe}.rs::prepare", "poulpy-core/src/decryption/glwe.rs::glwe_decrypt_default"] + PROBE8,
+                                timeout=7200 if nsym == 999 else 1200, mem_gb=28, core=core))
     return out
 
 
 META = {
-    "bounds": "log N in 1..12 for the multiplicativity law and 1..16 for the inverse (concrete), generator exponents in [0, 2^12), every odd Galois element in (-2N, 2N)",
-    "outside": "everything of C03 that runs through the DFT: the gadget product of GLWE/GGLWE/GGSW/LWE key-switching, automorphism/trace/packing values, noise variance bounds (DESIGN §2.4); index arithmetic interleaved with key-switch calls",
-    "assumptions": [],
-    "stubs": [],
+    "bounds": "key-switch (ks.*): N=8 on Module<Probe> (ring R' = Z[i]^4, statement ring-generic), radix 4 and 12, dsize 1..2, dnum 1..3, ranks (1,1),(2,1),(1,2), out-of-place and in-place, zero-noise key from the real key generator, 2 symbolic input words in the quick tier / all words in the thorough tier, exact-size symbolic scratch; fused automorphism forms (core.automorphism_{add,sub,sub_negate}): N=8, Galois elements {-1,3,5}, res = autom(a) +/- a resp. a - autom(a) against the plain automorphism; log N in 1..12 for the multiplicativity law and 1..16 for the inverse (concrete), generator exponents in [0, 2^12), every odd Galois element in (-2N, 2N)",
+    "outside": "the negacyclic ring itself for N >= 4 (the substituted backend multiplies in Z[i]^(N/2); C07), hence the VALUE of automorphism / trace / packing / sample extraction (X -> X^g is not a ring map of the substituted ring) - only their fused-form relations are decided; GGLWE/GGSW/LWE key-switch, noise variance bounds, key radix different from the ciphertext radix for the phase statement, N > 8",
+    "assumptions": ["the key-switch statement is ring-generic: it is decided in the ring in which the substituted leaf kernels multiply exactly"],
+    "stubs": ["Source::next_u64n -> deterministic LCG (mask of the switching key)", "znx_add_normal_f64_ref with bound 0 (noise-free key)", "f64::exp2 / f64::log2", "std::fmt::format", "take_slice_aligned stand-in (see C12)"],
 }
